@@ -239,6 +239,127 @@ def ob_outliers(tier):
                  dict(si=s, oi=o, it=i, ma=m), rep)]
 
 
+# ------------------------------------------------------------------------------ homolog variant (class E)
+HOM_FIXED = ["ACDEFGHIKLMN", "GGSTAVLIKR"]
+# mobile sequence derived from the fixed one: identical, one residue deleted, two dissimilar substitutions, an insertion,
+# truncated at both ends
+HOM_EDITS = ["same", "delete", "substitute", "insert", "truncate"]
+
+
+def _hom_chain(seq, chain_id, nucleic=False):
+    import numpy as np
+    import biotite.structure as struc
+    from biotite.sequence import ProteinSequence
+    n = len(seq)
+    a = struc.AtomArray(2 * n)
+    a.chain_id[:] = chain_id
+    a.res_id = np.repeat(np.arange(1, n + 1), 2)
+    a.res_name = np.repeat([s_ if nucleic else ProteinSequence.convert_letter_1to3(s_) for s_ in seq], 2)
+    a.atom_name = np.array((["P", "O3'"] if nucleic else ["CA", "CB"]) * n)
+    a.element = np.array((["P", "O"] if nucleic else ["C", "C"]) * n)
+    return a
+
+
+def _hom_coords(n, seed):
+    import numpy as np
+    t = np.arange(n, dtype=float)
+    ca = np.stack([3.0 * t, 2.0 * np.sin(t * 1.1 + seed), 2.0 * np.cos(t * 0.9 + 0.3 * seed)], axis=1)
+    return ca
+
+
+def check_homologs(fi, ei, oi, two_chains, as_stack):
+    """superimpose_homologs on small synthetic peptides (real numpy, real align_optimal, synthetic CCD): anchors are pairs
+    of anchor atoms (CA) of residues that correspond in the sequences; the returned transformation is the
+    superimposition on exactly the returned anchors and gives the returned coordinates; a rigid copy is fitted back."""
+    import numpy as np
+    import biotite.structure as struc
+    import ccd_fixture
+    ccd_fixture.activate()
+    fseq = HOM_FIXED[fi]
+    edit = HOM_EDITS[ei]
+    # mobile sequence + for each mobile residue the fixed residue it is a copy of (None = new residue)
+    src = list(range(len(fseq)))
+    mseq = list(fseq)
+    if edit == "delete":
+        del mseq[4], src[4]
+    elif edit == "substitute":
+        mseq[2], mseq[7] = "W", "P"
+    elif edit == "insert":
+        mseq[5:5] = ["W", "W"]
+        src[5:5] = [None, None]
+    elif edit == "truncate":
+        mseq, src = mseq[2:-2], src[2:-2]
+    fixed = _hom_chain(fseq, "A")
+    mobile = _hom_chain("".join(mseq), "X")
+    fca = _hom_coords(len(fseq), 0.0)
+    off = np.array([0.5, 1.2, -0.4])
+    fixed.coord[0::2], fixed.coord[1::2] = fca, fca + off
+    mca = np.array([fca[k] if k is not None else fca[5] + np.array([0.0, 6.0 + i, 3.0]) for i, k in enumerate(src)])
+    mobile.coord[0::2], mobile.coord[1::2] = mca, mca + off
+    if two_chains:
+        f2, m2 = _hom_chain("KLMNPQRS", "B"), _hom_chain("KLMNPQRS", "Y")
+        c2 = _hom_coords(8, 1.0) + np.array([0.0, 9.0, 0.0])
+        for x in (f2, m2):
+            x.coord[0::2], x.coord[1::2] = c2, c2 + off
+        fixed, mobile = fixed + f2, mobile + m2
+    # conformational outliers: oi residues of the mobile chain are displaced
+    for k in range(oi):
+        mobile.coord[2 * (3 * k + 1): 2 * (3 * k + 1) + 2] += 5.0 + 2.0 * k
+    c, s_ = np.cos(0.7), np.sin(0.7)
+    R = np.array([[c, -s_, 0], [s_, c, 0], [0, 0, 1]])
+    rigid = mobile.coord.astype(float).copy()
+    mobile.coord = (rigid @ R.T + np.array([5.0, -2.0, 1.0])).astype(np.float32)
+    fx, mb = (struc.stack([fixed]), struc.stack([mobile, mobile])) if as_stack else (fixed, mobile)
+    fitted, tr, fa, ma = struc.superimpose_homologs(fx, mb)
+    fa, ma = np.asarray(fa), np.asarray(ma)
+    if len(fa) != len(ma) or len(fa) < 3:
+        return f"anchors {fa.tolist()} / {ma.tolist()}"
+    if len(set(fa.tolist())) != len(fa) or len(set(ma.tolist())) != len(ma) or np.any(np.diff(fa) <= 0) or np.any(np.diff(ma) <= 0):
+        return f"anchors are not increasing one-to-one pairs: {fa.tolist()} / {ma.tolist()}"
+    if np.any(fixed.atom_name[fa] != "CA") or np.any(mobile.atom_name[ma] != "CA"):
+        return f"anchors are not the anchor atoms of their residues: {fixed.atom_name[fa].tolist()} / {mobile.atom_name[ma].tolist()}"
+    if np.any(fixed.res_name[fa] != mobile.res_name[ma]) and edit != "substitute":
+        return f"anchor pairs join different residue types: {fixed.res_name[fa].tolist()} / {mobile.res_name[ma].tolist()}"
+    if np.any(np.char.equal(fixed.chain_id[fa], "A") != np.char.equal(mobile.chain_id[ma], "X")):
+        return "anchor pairs join different chains"
+    fc = np.asarray(struc.coord(fitted), dtype=float)
+    if not np.allclose(np.asarray(struc.coord(tr.apply(mb)), dtype=float), fc, atol=1e-4):
+        return "transformation.apply(mobile) != returned structure"
+    ref, _ = struc.superimpose(fx.coord[..., fa, :], mb.coord[..., ma, :])
+    if not np.allclose(np.asarray(ref, dtype=float), fc[..., ma, :], atol=2e-3):
+        return (f"the returned fit is not the superimposition on the returned anchors (max deviation "
+                f"{float(np.abs(np.asarray(ref, dtype=float) - fc[..., ma, :]).max()):.4f}; fixed {fseq}, edit {edit}, {oi} displaced residues)")
+    # every residue that is an undisturbed copy of a fixed residue comes to lie on it (anchors or not)
+    moved = {3 * k + 1 for k in range(oi)}
+    for i, k in enumerate(src):
+        if k is not None and i not in moved:
+            d = float(np.abs(fc[..., 2 * i: 2 * i + 2, :] - fixed.coord[2 * k: 2 * k + 2]).max())
+            if d > 5e-3:
+                return f"rigid copy of residue {k} lands {d:.4f} away (fixed {fseq}, edit {edit}, {oi} displaced residues, anchors {fa.tolist()}/{ma.tolist()})"
+    return None
+
+
+def ob_homologs(tier):
+    f, e, o, t, k = z3.Ints("f e o t k")
+
+    def run():
+        from vf.sx.core import cur
+        ex = cur()
+        return check_homologs(ex.choose(f, range(len(HOM_FIXED))), ex.choose(e, range(len(HOM_EDITS))), ex.choose(o, range(3)),
+                              ex.choose(t, range(2)), ex.choose(k, range(2))) is None
+
+    def rep(w):
+        try:
+            r = check_homologs(w["fi"], w["ei"], w["oi"], w["two_chains"], w["as_stack"])
+            return r is None, str(r)
+        except Exception as ex_:
+            import traceback
+            return False, f"{type(ex_).__name__}: {ex_} | {traceback.format_exc()[-400:]}"
+    return [Case("superimpose_homologs: anchors vs sequence correspondence vs transformation",
+                 [f >= 0, f < len(HOM_FIXED), e >= 0, e < len(HOM_EDITS), o >= 0, o < 3, t >= 0, t <= 1, k >= 0, k <= 1], run,
+                 dict(fi=f, ei=e, oi=o, two_chains=t, as_stack=k), rep)]
+
+
 # ------------------------------------------------------------------------------ degenerate point sets (class E)
 POINT_SETS = {
     "general": [(0, 0, 0), (1, 0, 0), (0, 2, 0), (0, 0, 3), (1, 1, 1)],
